@@ -61,6 +61,7 @@ impl StorageFault {
                 "hi_next_up" => "storage_hi_next_up",
                 "hi_next_down" => "storage_hi_next_down",
                 "random_word" => "storage_random_word",
+                "duplicate_with_other_word" => "storage_duplicate_with_other_word",
                 _ => "storage_set_word_other",
             },
             StorageFault::WordSwap => "storage_word_swap",
@@ -805,7 +806,26 @@ pub fn generate(r: &mut Rng, hi: u64, lo: u64, other: (u64, u64)) -> DeCase {
             _ => None,
         };
         if let Some(f) = f {
+            // a duplicated entry often carries a different (stale / damaged) word than the original
+            let dup = match &f {
+                StorageFault::DuplicateEntry { from, to } => Some((*from, *to)),
+                _ => None,
+            };
             c.faults.push(f);
+            if let Some((from, to)) = dup {
+                if r.bool() {
+                    let which = if r.bool() { to.min(2) } else if to <= from { from + 1 } else { from };
+                    let bits = match r.below(6) {
+                        0 => f64::NAN.to_bits(),
+                        1 => f64::INFINITY.to_bits() | if r.bool() { SIGN } else { 0 },
+                        2 => 0,
+                        3 => other.0,
+                        4 => 1.0f64.to_bits(),
+                        _ => r.next_u64(),
+                    };
+                    c.faults.push(StorageFault::SetWord { entry: which, bits, label: "duplicate_with_other_word".into() });
+                }
+            }
         }
     }
     if fam_access || c.faults.is_empty() {
